@@ -1234,6 +1234,42 @@ def _desugar_union_star(stmts):
     return out
 
 
+class _FormatToFString(ast.NodeTransformer):
+    """'..{}..{:X}..'.format(a, b)  ->  f'..{a}..{b:X}..'   (positional fields only; anything else is left alone)"""
+
+    def visit_Call(self, c):
+        self.generic_visit(c)
+        if not (isinstance(c.func, ast.Attribute) and c.func.attr == "format" and isinstance(c.func.value, ast.Constant) and isinstance(c.func.value.value, str)
+                and not c.keywords and not any(isinstance(a, ast.Starred) for a in c.args)):
+            return c
+        import string
+        try:
+            fields = list(string.Formatter().parse(c.func.value.value))
+        except ValueError:
+            return c
+        values, auto, used = [], 0, set()
+        for lit, name, spec, conv in fields:
+            if lit:
+                values.append(ast.Constant(value=lit))
+            if name is None:
+                continue
+            if name == "":
+                idx = auto
+                auto += 1
+            elif name.isdigit():
+                idx = int(name)
+            else:
+                return c
+            if idx >= len(c.args) or (spec and ("{" in spec or "}" in spec)):
+                return c
+            used.add(idx)
+            values.append(ast.FormattedValue(value=_clone(c.args[idx]), conversion=ord(conv) if conv else -1,
+                                             format_spec=ast.JoinedStr(values=[ast.Constant(value=spec)]) if spec else None))
+        if used != set(range(len(c.args))):
+            return c
+        return ast.copy_location(ast.JoinedStr(values=values), c)
+
+
 def _merge_if_calls(stmts):
     """if c: f(A) else: f(B)   (same callee, one argument differs, both arguments are plain values)   ->   f(A if c else B)"""
     out = []
@@ -1357,6 +1393,7 @@ def canonical_function(mod, fn, depth=3):
     new = _propagate_pure_locals(new)
     new.body = _split_ifexp_calls(new.body)
     new.body = _merge_if_calls(new.body)
+    new = _FormatToFString().visit(new)
     new = _propagate_option_flags(new)
     local_names = _assigned_names(new)
     new = _ConstProp(_module_constants(mod), local_names).visit(new)
